@@ -56,6 +56,67 @@ pub enum ReqRef {
 /// The transaction id a createStream op carries: mostly small integers, but "the caller's
 /// transaction id" is any AMF0 number, so 0 (by convention "no reply expected" for other
 /// commands), large, fractional and negative ones occur too.
+/// Long histories in which many surfaced requests wait for the application at the same time (a
+/// table of outstanding requests with a small capacity would lose some): connect, accept, n
+/// streams, a publish or play on each, and only then the decisions, oldest or newest first.
+pub fn many_undecided() -> BoxedStrategy<Case> {
+    (
+        gen::pick(&[15u32, 16, 17, 31, 32, 33, 34, 40, 64, 65, 130, 300]),
+        any::<u8>(),
+        proptest::collection::vec(any::<u8>(), 0..40),
+        gen::pick(&[128u32, 4096, 1, 7]),
+    )
+        .prop_map(|(n, shape, tail, chunk_size)| {
+            let at = |j: u32| StreamRef::Created((((j as u64) * 65_536 + 32_768) / n as u64) as u16);
+            let mut ops: Vec<(SOp, u16)> = vec![(SOp::Connect { app: 0, slash: false, enc: 0, tid: 1 }, 0), (SOp::Accept { req: ReqRef::Outstanding(0) }, 0)];
+            for j in 0..n {
+                ops.push((SOp::CreateStream { tid: 2 + (j % 7) as u8 }, 0));
+            }
+            for j in 0..n {
+                if (shape as u32 + j) % 3 == 0 {
+                    ops.push((SOp::Play { stream: at(j), key: (j % 3) as u8, nargs: 1, start: 0, duration: 0, reset: false }, 0));
+                } else {
+                    ops.push((SOp::Publish { stream: at(j), key: (j % 3) as u8, mode: (j % 3) as u8 }, 0));
+                }
+            }
+            for j in 0..n {
+                let req = if shape & 1 == 0 { ReqRef::Outstanding(0) } else { ReqRef::Outstanding(65_535) };
+                if (shape >> 1) & 3 == 0 && j % 4 == 3 {
+                    ops.push((SOp::Reject { req }, 0));
+                } else {
+                    ops.push((SOp::Accept { req }, 0));
+                }
+            }
+            for (k, t) in tail.iter().enumerate() {
+                let j = (*t as u32 * 7 + k as u32) % n;
+                match t % 4 {
+                    0 => ops.push((SOp::Audio { stream: at(j), ts: k as u32 * 20, len: 3 }, 0)),
+                    1 => ops.push((SOp::SetDataFrame { stream: at(j), meta: fixed_meta((t % 3) as u32) }, 0)),
+                    2 => ops.push((SOp::CloseStream { stream: at(j) }, 0)),
+                    _ => ops.push((SOp::Video { stream: at(j), ts: k as u32 * 20, len: 0 }, 0)),
+                }
+            }
+            Case { ops, chunk_size }
+        })
+        .boxed()
+}
+
+pub fn fixed_meta(k: u32) -> Meta {
+    Meta {
+        width: Some(1280 + k),
+        height: Some(720),
+        vcodec: Some(7),
+        frame_rate: Some(0x41F0_0000),
+        vbitrate: Some(2500),
+        acodec: Some(10),
+        abitrate: Some(128),
+        sample_rate: Some(44_100),
+        channels: Some(2),
+        stereo: Some(true),
+        encoder: Some("enc".to_string()),
+    }
+}
+
 pub fn create_tid(t: u8) -> f64 {
     match t {
         10 => 255.0,
@@ -885,7 +946,9 @@ pub fn sop() -> BoxedStrategy<SOp> {
         3 => stream_ref().prop_map(|stream| SOp::DeleteStream { stream }),
         4 => (stream_ref(), gen::edge_u32(), 0u16..300).prop_map(|(stream, ts, len)| SOp::Audio { stream, ts, len }),
         3 => (stream_ref(), gen::edge_u32(), 0u16..300).prop_map(|(stream, ts, len)| SOp::Video { stream, ts, len }),
-        3 => (stream_ref(), meta()).prop_map(|(stream, meta)| SOp::SetDataFrame { stream, meta }),
+        // metadata: a fresh draw, or one of three fixed descriptions (so that EQUAL metadata recurs
+        // within a history: twice on one stream, on two streams, before and after a re-publish)
+        3 => (stream_ref(), prop_oneof![2 => meta(), 3 => (0u32..3).prop_map(fixed_meta)]).prop_map(|(stream, meta)| SOp::SetDataFrame { stream, meta }),
         2 => gen::edge_u32().prop_map(|ts| SOp::Ping { ts }),
         1 => any::<u8>().prop_map(|k| SOp::UnknownCommand { k }),
         2 => (0u8..11, stream_ref()).prop_map(|(kind, stream)| SOp::Malformed { kind, stream }),
@@ -997,6 +1060,7 @@ pub fn spec() -> PropSpec {
         ],
         checks: vec![
             PropCheck::new("random-histories", |ctx| case_strategy(if ctx.tier == Tier::Thorough { 40 } else { 25 }), 80_000, 2_000_000, eval),
+            PropCheck::new("many-undecided-requests", |_| many_undecided(), 150, 4_000, eval),
             EnumCheck::new("bounded-exhaustive", true, exhaustive_cases, eval),
         ],
     }
